@@ -54,6 +54,15 @@ func (x PPart) match(name string) bool {
 	return err == nil && ok
 }
 
+// matchE is match that also notes a malformed glob being applied to a name.
+func (x PPart) matchE(name, key string, bad *[]string) bool {
+	ok, err := path.Match(x.Glob, name)
+	if err != nil {
+		*bad = append(*bad, key)
+	}
+	return err == nil && ok
+}
+
 // ExCase: a realm of 1-2 schemas and a set of patterns.
 type ExCase struct {
 	Schemas  []gm.Schema `json:"schemas"`
@@ -90,6 +99,7 @@ func inventory(r *schema.Realm) map[string]bool {
 // remain, and which are unspecified (cascade from an excluded column when a selector restricts the kinds).
 func reference(schemas []gm.Schema, pats []Pattern) (absent, unspecified map[string]bool, wantErr bool) {
 	absent, unspecified = map[string]bool{}, map[string]bool{}
+	var bad []string // the resources a malformed glob was applied to
 	for _, p := range pats {
 		if len(p) > 3 || len(p) == 0 {
 			return nil, nil, true
@@ -97,7 +107,7 @@ func reference(schemas []gm.Schema, pats []Pattern) (absent, unspecified map[str
 	}
 	for _, s := range schemas {
 		for _, p := range pats {
-			if !p[0].allows("schema") || !p[0].match(s.Name) {
+			if !p[0].allows("schema") || !p[0].matchE(s.Name, "schema:"+s.Name, &bad) {
 				continue
 			}
 			if len(p) == 1 {
@@ -105,7 +115,7 @@ func reference(schemas []gm.Schema, pats []Pattern) (absent, unspecified map[str
 				continue
 			}
 			for _, t := range s.Tables {
-				if !p[1].allows("table") || !p[1].match(t.Name) {
+				if !p[1].allows("table") || !p[1].matchE(t.Name, "table:"+s.Name+"/"+t.Name, &bad) {
 					continue
 				}
 				if len(p) == 2 {
@@ -114,7 +124,7 @@ func reference(schemas []gm.Schema, pats []Pattern) (absent, unspecified map[str
 				}
 				pre := s.Name + "/" + t.Name + "/"
 				for _, c := range t.Cols {
-					if p[2].allows("column") && p[2].match(c.Name) {
+					if p[2].allows("column") && p[2].matchE(c.Name, "column:"+pre+c.Name, &bad) {
 						absent["column:"+pre+c.Name] = true
 						// excluding a column removes the indexes and foreign keys that use it
 						for _, ix := range t.Indexes {
@@ -142,22 +152,32 @@ func reference(schemas []gm.Schema, pats []Pattern) (absent, unspecified map[str
 					}
 				}
 				for _, ix := range t.Indexes {
-					if p[2].allows("index") && p[2].match(ix.Name) {
+					if p[2].allows("index") && p[2].matchE(ix.Name, "index:"+pre+ix.Name, &bad) {
 						absent["index:"+pre+ix.Name] = true
 					}
 				}
 				for _, fk := range t.FKs {
-					if p[2].allows("fk") && p[2].match(fk.Name) {
+					if p[2].allows("fk") && p[2].matchE(fk.Name, "fk:"+pre+fk.Name, &bad) {
 						absent["fk:"+pre+fk.Name] = true
 					}
 				}
 				for _, ck := range t.Checks {
-					if p[2].allows("check") && p[2].match(ck.Name) {
+					if p[2].allows("check") && p[2].matchE(ck.Name, "check:"+pre+ck.Name, &bad) {
 						absent["check:"+pre+ck.Name] = true
 					}
 				}
 			}
 		}
+	}
+	// patterns are applied one after the other to what the earlier ones left: a malformed glob must fail the call when it
+	// meets a resource that no pattern removes; when it meets only resources that other patterns remove, both outcomes are possible
+	for _, k := range bad {
+		if !absent[k] && !under(k, absent) && !unspecified[k] {
+			return absent, unspecified, true
+		}
+	}
+	if len(bad) > 0 {
+		unspecified["error"] = true
 	}
 	return absent, unspecified, false
 }
@@ -203,9 +223,12 @@ func checkExclude(c ExCase) (ExOutcome, error) {
 	got, err := schema.ExcludeRealm(r, pats)
 	if wantErr {
 		if err == nil {
-			return out, fmt.Errorf("patterns %q: a pattern with more than three parts was accepted", pats)
+			return out, fmt.Errorf("patterns %q: a pattern with more than three parts, or a malformed glob that is applied to a name, was accepted without an error (ExcludeRealm result: %d resources left of %d)", pats, len(inventory(got)), len(before))
 		}
 		return out, nil
+	}
+	if err != nil && unspecified["error"] {
+		return out, nil // a malformed glob that met only resources removed by other patterns
 	}
 	if err != nil {
 		return out, fmt.Errorf("ExcludeRealm(%q) failed: %v", pats, err)
